@@ -326,6 +326,7 @@ struct ProbeReader {
   long fail_at = -1;
   int fail_with = 0;
   bool failed = false;
+  bool scribble_on_failure = false;  // C10: the failing block transfer leaves 0xaa bytes in its destination range
   long calls_after_failure = 0;
   std::vector<int64_t> refs;               // references resolved, in order
   // reference -> handle value (default identity); resolve_fail_ref: reference that fails with resolve_error
@@ -356,7 +357,11 @@ struct ProbeReader {
   St Read(T* begin, T* end) {
     size_t k = (size_t)(end - begin) * sizeof(T);
     log.push_back({'R', sizeof(T), (uint64_t)(end - begin)});
-    if (hit()) return (nop::ErrorStatus)fail_with;
+    if (hit()) {
+      // a transfer that fails may have stored anything in the range it was given (a short read followed by an error)
+      if (scribble_on_failure && k) memset(static_cast<void*>(begin), 0xaa, k);
+      return (nop::ErrorStatus)fail_with;
+    }
     if (k > n - pos) return nop::ErrorStatus::ReadLimitReached;
     if (k) memcpy(begin, p + pos, k);
     pos += k;
